@@ -29,7 +29,7 @@ fn shapes14() -> Vec<Shape> {
 
 fn shapes_gen() -> Vec<Shape> {
     let u = |s: u16, a: u8| Shape { size: s, align: a, uninit: true };
-    vec![S(1, 1), S(4, 4), S(0, 1), S(3, 1), S(8, 8), S(12, 4), u(2, 2), u(8, 8)]
+    vec![S(1, 1), S(4, 4), S(0, 1), S(3, 1), S(8, 8), S(12, 4), u(2, 2), u(8, 4)]
 }
 
 fn bounds(variants: usize, a1: usize, a: usize, r: usize, shapes: Vec<Shape>) -> Bounds {
@@ -63,7 +63,9 @@ fn passes(prop: &str, tier: Tier) -> Vec<Bounds> {
             }
         }
         "C13" | "C19" => {
-            let six = vec![S(1, 1), S(4, 4), S(0, 1), S(3, 1), S(8, 8), Shape { size: 2, align: 2, uninit: true }];
+            // same size with different alignment (4/4 and 4/1, 0/1 and 0/4) must be in every alphabet:
+            // the grouping of additions by size is where an ordering can become arbitrary
+            let six = vec![S(1, 1), S(4, 4), S(4, 1), S(0, 1), S(0, 4), S(8, 8), Shape { size: 2, align: 2, uninit: true }];
             let mut v = match (prop, q) {
                 ("C13", true) => vec![bounds(3, 2, 1, 1, shapes_gen()), bounds(2, 2, 2, 2, shapes_gen())],
                 ("C13", false) => vec![bounds(3, 3, 1, 1, shapes_gen()), bounds(4, 2, 1, 1, shapes_gen()), bounds(2, 3, 2, 2, shapes_gen())],
